@@ -96,12 +96,19 @@ class ExactAlgorithmPulp(RankAggAlgorithm, PairwiseBasedAlgorithm):
                 bucket = {id_elements[elem]}
                 current_nb_def = nb_defeats
         ranking.append(bucket)
+
+        # if all the costs are null (e.g. a single element), the objective function has no term and PuLP
+        # evaluates it to None: the Kemeny score is then 0
+        kemeny_score = prob.objective.value()
+        if kemeny_score is None:
+            kemeny_score = 0.
+
         return Consensus(consensus_rankings=[Ranking(ranking)],
                          dataset=dataset,
                          scoring_scheme=scoring_scheme,
                          att={ConsensusFeature.NECESSARILY_OPTIMAL: True,
                               ConsensusFeature.ASSOCIATED_ALGORITHM: self.get_full_name(),
-                              ConsensusFeature.KEMENY_SCORE: prob.objective.value(),
+                              ConsensusFeature.KEMENY_SCORE: kemeny_score,
                               })
 
     @staticmethod
